@@ -917,6 +917,12 @@ def b_bytes(ex, a, k, mutable=False):
         if ex.branch(mk_bool(v.t < 0)):
             ex.throw('ValueError', 'negative count')
         return SBytes(v.t, lambda i: 0, mutable)
+    if isinstance(v, SList) and v.mid is not None and getattr(v.mid, 'const', None) is not None \
+            and not v.left and not v.right:
+        c = v.mid.const
+        if ex.branch(mk_bool(zint(mk_int(v.mid.length)) > 0)):
+            M.byte_value(ex, c)
+        return SBytes(v.mid.length, lambda i, c=c: c if isinstance(c, int) else zint(c), mutable)
     if isinstance(v, (SList, tuple, RangeVal)):
         items = list(N.iterate(ex, v))
         for x in items:
